@@ -609,6 +609,7 @@ def mk_un(op, a):
 
 # ------------------------------------------------------------------ call models
 
+ARITH_TRAITS = {"std::ops::Add::add": "Add", "std::ops::Sub::sub": "Sub", "std::ops::Mul::mul": "Mul", "std::ops::Div::div": "Div", "std::ops::Rem::rem": "Rem"}
 INT_TYPES = ("u8", "u16", "u32", "u64", "u128", "usize", "i8", "i16", "i32", "i64", "i128", "isize")
 
 IDENTITY = {
@@ -715,6 +716,11 @@ def model_call(crate, fn, args, site, term=None):
         if len(ga) == 2 and all(g in INT_TYPES for g in ga) and ga[0] != ga[1]:
             dst, srcty = (ga[0], ga[1]) if path.endswith("::from") else (ga[1], ga[0])
             return ("cast", args[0], dst, srcty)
+    if path in ARITH_TRAITS and len(args) == 2:
+        # `a + &b`, `&a * &b` on primitive integers: the operator traits' reference impls are the plain operation on the values
+        ga = [g.lstrip("&").strip() for g in (fn.get("gargs") or [])]
+        if len(ga) == 2 and ga[0] == ga[1] and ga[0] in INT_TYPES:
+            return ("bin", ARITH_TRAITS[path], args[0], args[1])
     if path in IDENTITY and args:
         return args[0]
     if path in UNWRAP_SOME and args:
